@@ -59,7 +59,7 @@ PidOK     == {"pid39", "pidbp", "pidshort", "pidmid", "pid34", "pidlong"}      \
 Name12OK  == {"name12", "name12uc", "nameA", "nameB"}                          \* 12 characters of [a-z0-9] (any case)
 AddrOK    == {"addr", "addrself", "addrrich", "addradmin", "vACC", "vACCadmin"} \* base58check account addresses
 NameAddr  == Name12OK \cup {"nameshort", "namedot", "special", "empty"}        \* accepted by types.DecodeAddress as a name
-DaoIdOK   == {"daoid", "daoidlc", "daoid2"}
+DaoIdOK   == {"daoid", "daoidlc", "daoid2", "daoidgas"}            \* BPCOUNT, bpcount, STAKINGMIN|NAMEPRICE, GASPRICE
 ConfKeyOK == {"kP2PW", "kP2PB", "kACCW", "kRPC", "klc"}
 StrClasses == PidOK \cup Name12OK \cup AddrOK \cup DaoIdOK \cup ConfKeyOK \cup
               {"b58bad", "b58raw", "daoidbad", "nstr", "nstr0", "nstrbig", "nstrbad", "nstrneg", "namebad", "namedot",
@@ -70,7 +70,7 @@ ToSet(s) == {s[i] : i \in DOMAIN s}
 AllStr(s) == \A i \in DOMAIN s : IsStr(s[i])
 \* "dup" repeats the previous argument; classes with one fixed text repeat themselves; everything else differs
 FixedText(c) == CASE c \in {"addrrich", "vACC"} -> "rich" [] c \in {"addradmin", "vACCadmin"} -> "admin"
-                  [] c \in {"kP2PW", "kP2PB", "kACCW", "kRPC", "daoid", "empty", "nameA", "nameB", "addrself", "strtrue", "true", "false", "null"} -> c
+                  [] c \in {"kP2PW", "kP2PB", "kACCW", "kRPC", "daoid", "daoidgas", "empty", "nameA", "nameB", "addrself", "strtrue", "true", "false", "null"} -> c
                   [] OTHER -> ""
 HasDup(s) == \/ \E i \in DOMAIN s : i > 1 /\ s[i] = "dup"
              \/ \E i, j \in DOMAIN s : i < j /\ FixedText(s[i]) # "" /\ FixedText(s[i]) = FixedText(s[j])
@@ -90,7 +90,7 @@ Alphabet(rc, op) ==
     CASE op \in {"v1stake", "v1unstake"} -> {"num", "obj"}
       [] op = "v1voteBP"  -> {"pid39", "pidbp", "pidshort", "pidmid", "pid34", "pidlong", "b58bad", "b58raw", "empty", "dup",
                               "num", "bool", "null", "obj", "arr", "numbig"}
-      [] op = "v1voteDAO" -> {"daoid", "daoidlc", "daoid2", "daoidbad", "nstr", "nstr0", "nstr101", "nstrbig", "nstrbad", "nstrneg", "empty",
+      [] op = "v1voteDAO" -> {"daoid", "daoidlc", "daoid2", "daoidgas", "daoidbad", "nstr", "nstr0", "nstr101", "nstrbig", "nstrbad", "nstrneg", "empty",
                               "dup", "num", "null", "obj", "arr", "numbig"}
       [] OTHER            -> {"pid39", "daoid", "name12", "num"}
   ELSE IF rc = "name" THEN
@@ -190,7 +190,9 @@ GovProbes == UNION {{Gov(rc, NaturalAmount(rc, op), "ci", op, ValidArgs(op)) : o
 \* ... and, for the name service, a transfer sent from a registered name and one sent to it
 NameProbes == {Shape("TRANSFER", "user", "nameA", "one", "zero", "zero", "next", "ok", "ok", "ok", "empty", "", <<>>),
                Shape("TRANSFER", "nameA", "addr", "one", "zero", "zero", "next", "ok", "ok", "ok", "empty", "", <<>>)}
-Probes == GovProbes \cup NameProbes
+\* ... and, after a vote, a plain transfer with the default gas limit 0: its fee is computed from the voted parameters
+FeeProbes == {Shape("TRANSFER", "user", "addr", "one", "zero", "zero", "next", "ok", "ok", "ok", "empty", "", <<>>)}
+Probes == GovProbes \cup NameProbes \cup FeeProbes
 
 \* ------------------------------------------------------------------ what the validators read from the state
 InitFacts(w, s) ==
@@ -279,8 +281,8 @@ SysPoolOK(w, f, t, p) ==      \* system.ValidateSystemTx
     [] op = "v1voteBP"  -> f.staked /\ ~(f.votedBP /\ f.recent)
     [] op = "v1voteDAO" -> /\ w.fork >= 2
                            /\ Len(a) >= 1 /\ a[1] \in DaoIdOK
-                           /\ Len(a) <= 2                                      \* MultipleChoice = 1
-                           /\ (Len(a) = 2 => (a[2] \in {"nstr", "nstrneg"} \/ (a[2] = "nstr101" /\ a[1] = "daoid2")))
+                           /\ Len(a) = 2                                       \* at least one candidate; MultipleChoice = 1
+                           /\ (Len(a) = 2 => (a[2] \in {"nstr", "nstrneg"} \/ (a[2] = "nstr101" /\ a[1] \in {"daoid2", "daoidgas"})))
                                   \* decimal, non-zero, in range (a negative number passes); only BPCOUNT is limited to 100
                            /\ f.staked /\ ~(f.votedDAO /\ f.recent /\ a[1] \in {"daoid", "daoidlc"})
 
@@ -300,7 +302,7 @@ EntPoolOK(w, f, t, p) ==      \* enterprise.ValidateEnterpriseTx
   LET a == p.args
       adminOK == f.admin \/ ~f.adminSet IN      \* checkAdmin passes (ErrTxEnterpriseAdminIsNotSet only tolerated by the admin calls)
   CASE p.name \in {"appendAdmin", "removeAdmin"} ->
-           /\ Len(a) = 1 /\ a[1] \in (AddrOK \cup NameAddr) \ {"empty"}        \* a[1].(string) unchecked in the code
+           /\ Len(a) = 1 /\ a[1] \in AddrOK                                   \* a 33-byte address (names and special accounts are refused)
            /\ adminOK
            /\ (p.name = "appendAdmin" => ~(f.adminSet /\ a[1] = "addradmin") /\ ~(f.admin /\ a[1] = "addrself"))
            /\ (p.name = "removeAdmin" => f.adminSet /\ (a[1] = "addradmin" \/ (f.admin /\ a[1] = "addrself")))
